@@ -207,7 +207,7 @@ def make_spec(case, opened):
             if et_mode:
                 spec = gen.add_edge_templates(spec, rnd, frac=rnd.choice([0.3, 0.6, 1.0]),
                                               mixed_overrides=want == 'mixed_template_overrides',
-                                              bind_second=want != 'edge_second_input_varies')
+                                              bind_second=want != 'edge_second_input_varies', shapes=case.get('edge_shapes'))
             f, r = gen.features(spec)
             r2 = (set(r) - {'vec_partial_input_default'}) | vec_risks(spec)
             if want and want not in r2:
